@@ -51,7 +51,7 @@ type c12Worker struct {
 
 func checkC12(c *Ctx) {
 	r, p := c.R, c.P
-	r.Explanation = "Decides necessary conditions of C12 by exploring every path of the exported entry points of concurrency/runner.go and closer.go on the SSA form, with every same-package callee (helpers, closures, method values, deferred calls) virtually inlined and with the number of runners / closers fixed to each n = 0..4 (the statement's quantifier); unexported fields are identified by role (type and use by the exported methods). " +
+	r.Explanation = "Decides necessary conditions of C12 with a BOUNDED, PATH-SENSITIVE ABSTRACT INTERPRETATION of the type-checked program's SSA form (kitcheck/c12x.go): nothing of dapr/kit is executed and no solver is used. The exported entry points of concurrency/runner.go and closer.go are interpreted path by path with every same-package callee (helpers, closures, method values, func-typed fields with a single target, deferred calls, sync.Once bodies) virtually inlined; the collection sizes (number of runners / closers) are fixed to each concrete n = 0..4 — the statement's quantifier — so loops over them are unrolled; the abstract state keeps exact small integers, phi choices, results of inlined helpers, local cells, small slices, the registered defers and the select case taken, and forks on every condition it cannot evaluate; identical states are merged and integers are clipped, so the interpretation is finite. The rules are predicates over the events of every abstract path. Unexported fields (also when grouped into a sub-struct) are identified by role — type and use by the exported methods — not by name. SIZES BEYOND n = 4 ARE NOT DECIDED. " +
 		"(K0) both Run methods start goroutines only on paths on which their own atomic test-and-set of the running flag succeeded; RunnerManager.Add appends only on paths on which it read the flag unset and otherwise returns a non-nil error. " +
 		"(K1) every runner goroutine calls its own element runners[i] exactly once with the context derived by context.WithCancel, sends exactly one result after it, and calls that context's cancel on every path after the runner returned and never before; for every n, on every path Run starts one goroutine per element and receives exactly n results before it returns. " +
 		"(K2) nil is sent / a result is not handed to errors.Join only when it is known nil or context.Canceled; a result that may be Canceled is never joined; Run returns that errors.Join (or nil when nothing was joined). " +
@@ -62,7 +62,8 @@ func checkC12(c *Ctx) {
 	r.Assumptions = append(r.Assumptions,
 		"context.WithCancel, errors.Join, errors.Is, sync/atomic.Bool and channel operations behave as documented",
 		"callers start RunnerManager.Run only after their Add calls returned (Run reads the runners without the lock)",
-		"the paths of the entry points are explored with calls into other packages and dynamic calls treated as opaque; same-package callees are entered up to depth 6",
+		"bounded abstract interpretation: numbers of runners / closers 0..4 only (larger collections are not decided); calls into other packages and dynamic calls with unknown targets are opaque; same-package callees are entered up to depth 6 (deeper or recursive => UNDECIDED); integers outside [-9,9] and conditions on unknown values are treated as unknown (both branches explored)",
+		"a read of the closers list is the final list only if made with the inner manager's lock held or after closing was set inside/before a section of that lock; values derived from any other read are treated as unknown and may not decide a branch or select a closer",
 		"values captured by goroutine closures are traced through their variable cells flow-insensitively")
 
 	x := &c12{c: c, r: r, p: p, pkg: p.ModPath + "/concurrency", viol: map[string]map[string]bool{}, posn: map[string]string{}, und: map[string]bool{}}
@@ -175,15 +176,34 @@ func (x *c12) structOf(tn string) (*types.Named, *types.Struct) {
 	return n, st
 }
 
-// fieldsWhere returns the fields of struct type tn whose type satisfies pred.
+// fieldsWhere returns the fields of struct type tn — and, recursively, of the
+// struct-typed fields it holds by value, pointer or embedding when those
+// struct types belong to the analysed package (life-cycle state grouped into a
+// sub-struct) — whose type satisfies pred.
 func (x *c12) fieldsWhere(tn string, pred func(types.Type) bool) []FieldID {
-	_, st := x.structOf(tn)
+	n, _ := x.structOf(tn)
 	var out []FieldID
-	for i := 0; i < st.NumFields(); i++ {
-		if pred(st.Field(i).Type()) {
-			out = append(out, FieldID{x.pkg + "." + tn, st.Field(i).Name()})
+	seen := map[string]bool{}
+	var visit func(t types.Type, depth int)
+	visit = func(t types.Type, depth int) {
+		key := namedKey(t)
+		st := structOf(t)
+		if st == nil || key == "" || seen[key] || depth > 3 {
+			return
+		}
+		seen[key] = true
+		for i := 0; i < st.NumFields(); i++ {
+			ft := st.Field(i).Type()
+			if pred(ft) {
+				out = append(out, FieldID{key, st.Field(i).Name()})
+				continue
+			}
+			if nk := namedKey(ft); strings.HasPrefix(nk, x.pkg+".") && structOf(ft) != nil && nk != x.pkg+".RunnerManager" && nk != x.pkg+".RunnerCloserManager" {
+				visit(ft, depth+1)
+			}
 		}
 	}
+	visit(n, 0)
 	return out
 }
 
@@ -275,7 +295,7 @@ func (x *c12) resolve() {
 	runner := p.Named("concurrency", "Runner")
 	rm, _ := x.structOf("RunnerManager")
 
-	isAtomicBool := func(t types.Type) bool { return namedKey(t) == "sync/atomic.Bool" }
+	isAtomicBool := c12IsFlagType
 	isMutex := func(t types.Type) bool { k := namedKey(t); return k == "sync.Mutex" || k == "sync.RWMutex" }
 
 	x.rmRunners = x.pick("runners", x.fieldsWhere("RunnerManager", func(t types.Type) bool {
@@ -465,52 +485,200 @@ func (x *c12) resolve() {
 
 // -------------------------------------------------------- event recognisers
 
+// c12IsFlagType: an atomic two-state flag (atomic.Bool, or an atomic integer
+// used as 0 / non-zero).
+func c12IsFlagType(t types.Type) bool {
+	switch namedKey(t) {
+	case "sync/atomic.Bool", "sync/atomic.Int32", "sync/atomic.Int64", "sync/atomic.Uint32", "sync/atomic.Uint64":
+		return true
+	}
+	return false
+}
+
+func c12IsFlagMethod(call ssa.CallInstruction, name string) bool {
+	obj := calleeObj(call)
+	if obj == nil || obj.Name() != name || obj.Pkg() == nil || obj.Pkg().Path() != "sync/atomic" {
+		return false
+	}
+	sig, _ := obj.Type().(*types.Signature)
+	return sig != nil && sig.Recv() != nil && c12IsFlagType(deref(sig.Recv().Type()))
+}
+
+// c12IsZero / c12IsNonZero: constant false/0 resp. true/non-zero.
+func c12IsZero(v ssa.Value) bool {
+	if c12IsConstBool(v, false) {
+		return true
+	}
+	k, ok := c12ConstInt(v)
+	return ok && k == 0
+}
+
+func c12IsNonZero(v ssa.Value) bool {
+	if c12IsConstBool(v, true) {
+		return true
+	}
+	k, ok := c12ConstInt(v)
+	return ok && k != 0
+}
+
 func (x *c12) flagCall(in ssa.Instruction, f FieldID, name string) (*ssa.Call, bool) {
 	call, ok := in.(*ssa.Call)
-	if !ok || !callIs(call, "sync/atomic", "Bool", name) || len(call.Call.Args) == 0 {
+	if !ok || !c12IsFlagMethod(call, name) || len(call.Call.Args) == 0 {
 		return nil, false
 	}
 	id, _, ok := fieldOfValue(call.Call.Args[0])
 	return call, ok && id == f
 }
 
+// flagSetCall: in is f.Store(true / non-zero).
+func (x *c12) flagSetCall(in ssa.Instruction, f FieldID) bool {
+	c, ok := x.flagCall(in, f, "Store")
+	return ok && len(c.Call.Args) == 2 && c12IsNonZero(c.Call.Args[1])
+}
+
+// flagValue decodes a branch (cond, truth) as knowledge about the value an
+// atomic operation `name` on flag f returned: +1 = set (true / non-zero),
+// -1 = unset (false / zero), 0 = not such a test.
+func (x *c12) flagValue(cond xVal, truth bool, f FieldID, name string) int {
+	isOp := func(v xVal) bool {
+		if v.K != xAtom {
+			return false
+		}
+		call, ok := v.V.(*ssa.Call)
+		if !ok {
+			return false
+		}
+		_, ok = x.flagCall(call, f, name)
+		return ok
+	}
+	if isOp(cond) { // boolean flag used directly
+		if truth {
+			return 1
+		}
+		return -1
+	}
+	if cond.K == xCmp && (cond.Op == token.EQL || cond.Op == token.NEQ) {
+		a, b := *cond.X, *cond.Y
+		if !isOp(a) {
+			a, b = b, a
+		}
+		if isOp(a) && (b.K == xInt || b.K == xBool) {
+			zero := (b.K == xInt && b.I == 0) || (b.K == xBool && !b.B)
+			eq := (cond.Op == token.EQL) == truth
+			// op == zero (eq) -> unset; op != zero -> set; comparisons with a
+			// non-zero constant k: op == k -> set, op != k -> unknown
+			switch {
+			case zero && eq:
+				return -1
+			case zero && !eq:
+				return 1
+			case !zero && eq:
+				return 1
+			case !zero && !eq && b.K == xInt:
+				// op != k: unset when k is the only non-zero value the package ever
+				// writes into the flag (a two-state flag)
+				if k, ok := x.flagOnlyValue(f); ok && k == b.I {
+					return -1
+				}
+			}
+		}
+	}
+	return 0
+}
+
+// flagOnlyValue: the single non-zero constant the package writes into flag f
+// (Store / Swap / CompareAndSwap new value); ok=false if there are several or
+// a non-constant one.
+func (x *c12) flagOnlyValue(f FieldID) (int64, bool) {
+	var k int64
+	have, ok := false, true
+	note := func(v ssa.Value) {
+		c, isC := c12ConstInt(v)
+		if !isC {
+			ok = false
+			return
+		}
+		if c == 0 {
+			return
+		}
+		if have && c != k {
+			ok = false
+		}
+		k, have = c, true
+	}
+	for _, fn := range x.p.FuncsOfPkg("concurrency") {
+		for _, name := range []string{"Store", "Swap"} {
+			for _, c := range c12FlagCalls(fn, f, name) {
+				if len(c.Call.Args) == 2 {
+					note(c.Call.Args[1])
+				}
+			}
+		}
+		for _, c := range c12FlagCalls(fn, f, "CompareAndSwap") {
+			if len(c.Call.Args) == 3 {
+				note(c.Call.Args[2])
+			}
+		}
+		for _, c := range c12FlagCalls(fn, f, "Add") {
+			_ = c
+			ok = false
+		}
+	}
+	return k, ok && have
+}
+
 // tasWon: the branch (cond, truth) is the success of an atomic test-and-set
-// of flag f (CompareAndSwap(false,true) == true, Swap(true) == false).
+// of flag f (CompareAndSwap(false/0, true/k) == true, Swap(true/k) == false/0).
 func (x *c12) tasWon(cond xVal, truth bool, f FieldID) bool {
-	if cond.K != xAtom {
-		return false
+	if cond.K == xAtom {
+		if call, ok := cond.V.(*ssa.Call); ok {
+			if c, ok := x.flagCall(call, f, "CompareAndSwap"); ok && truth {
+				a := c.Call.Args
+				return len(a) == 3 && c12IsZero(a[1]) && c12IsNonZero(a[2])
+			}
+		}
 	}
-	call, ok := cond.V.(*ssa.Call)
-	if !ok {
-		return false
-	}
-	if c, ok := x.flagCall(call, f, "CompareAndSwap"); ok && truth {
-		a := c.Call.Args
-		return len(a) == 3 && c12IsConstBool(a[1], false) && c12IsConstBool(a[2], true)
-	}
-	if c, ok := x.flagCall(call, f, "Swap"); ok && !truth {
-		a := c.Call.Args
-		return len(a) == 2 && c12IsConstBool(a[1], true)
+	if x.swapSets(cond, f) {
+		return x.flagValue(cond, truth, f, "Swap") == -1
 	}
 	return false
 }
 
-// tasTried: cond is the result of a test-and-set of f (either outcome).
-func (x *c12) tasTried(cond xVal, f FieldID) bool {
-	return x.tasWon(cond, true, f) || x.tasWon(cond, false, f)
+// swapSets: cond tests the result of f.Swap(true / non-zero).
+func (x *c12) swapSets(cond xVal, f FieldID) bool {
+	find := func(v xVal) bool {
+		if v.K != xAtom {
+			return false
+		}
+		call, ok := v.V.(*ssa.Call)
+		if !ok {
+			return false
+		}
+		c, ok := x.flagCall(call, f, "Swap")
+		return ok && len(c.Call.Args) == 2 && c12IsNonZero(c.Call.Args[1])
+	}
+	if find(cond) {
+		return true
+	}
+	return cond.K == xCmp && (find(*cond.X) || find(*cond.Y))
 }
 
-// loadIs: cond is the result of f.Load().
-func (x *c12) loadIs(cond xVal, f FieldID) bool {
-	if cond.K != xAtom {
-		return false
+// tasTried: cond is the result of a test-and-set of f (either outcome).
+func (x *c12) tasTried(cond xVal, f FieldID) bool {
+	if x.swapSets(cond, f) {
+		return true
 	}
-	call, ok := cond.V.(*ssa.Call)
-	if !ok {
-		return false
-	}
-	_, ok = x.flagCall(call, f, "Load")
-	return ok
+	return x.tasWon(cond, true, f)
+}
+
+// flagUnset / flagSet: the branch established that f.Load() returned
+// false/0 resp. true/non-zero.
+func (x *c12) flagUnset(cond xVal, truth bool, f FieldID) bool {
+	return x.flagValue(cond, truth, f, "Load") == -1
+}
+
+func (x *c12) flagSet(cond xVal, truth bool, f FieldID) bool {
+	return x.flagValue(cond, truth, f, "Load") == 1
 }
 
 // closeOf: in (a call or defer of builtin close) closes a channel that
